@@ -26,7 +26,7 @@ D = ['bitstring.bits:Bits._setfile', 'bitstring.bits:Bits._setauto', 'bitstring.
      'bitstring.bitstore:BitStore.invert_msb0', 'bitstring.bitstore:BitStore.getindex_msb0', 'bitstring.bitstore:BitStore.getslice_lsb0', 'bitstring.bitstore:BitStore.getindex_lsb0',
      'bitstring.bitstore:BitStore.find', 'bitstring.bitstore:BitStore.rfind', 'bitstring.bitstore:BitStore.findall_msb0', 'bitstring.bitstore:BitStore.any_set', 'bitstring.bitstore:BitStore.all_set']
 
-ROUTES = ['file-len', 'file-len-unaligned', 'file-whole', 'file-offset', 'file-offset-len', 'handle-len', 'bytes-window', 'bitarray', 'bitarray-window', 'slice-of-larger', 'copy-of', 'bools']
+ROUTES = ['file-len', 'file-len-unaligned', 'file-whole', 'file-exact-len', 'file-offset', 'file-offset-len', 'handle-len', 'bytes-window', 'bitarray', 'bitarray-window', 'slice-of-larger', 'copy-of', 'bools']
 
 
 def build(K, cls, route, n):
@@ -35,6 +35,8 @@ def build(K, cls, route, n):
     import bitarray
     if route.startswith('file') or route.startswith('handle'):
         nbytes = (n + 7) // 8 + 1
+        if route in ('file-whole', 'file-exact-len'):
+            nbytes = n // 8
         if route in ('file-offset', 'file-offset-len'):
             off = 3
             nbytes = (n + off + 7) // 8 + (1 if route == 'file-offset-len' else 0)
@@ -48,6 +50,8 @@ def build(K, cls, route, n):
             return cls(filename=fn, length=n), rawbits[:n]
         if route == 'file-whole':
             return cls(filename=fn), rawbits
+        if route == 'file-exact-len':
+            return cls(filename=fn, length=n), rawbits
         if route == 'file-offset':
             return cls(filename=fn, offset=off), rawbits[off:]
         if route == 'file-offset-len':
@@ -82,11 +86,24 @@ def build(K, cls, route, n):
     raise ValueError(route)
 
 
+class _Lazy:
+    """a symbolic argument created (and case-split) only on the paths whose operation uses it"""
+
+    def __init__(self, make):
+        self.make, self.v, self.done = make, None, False
+
+    def __call__(self):
+        if not self.done:
+            self.v, self.done = self.make(), True
+        return self.v
+
+
 def _ops(K, n):
     """name -> function(obj) -> observable (values, bitarrays or lists of them)"""
     import bitstring
-    i = K.int('i', -n - 1, n)
-    a, b = K.opt_int('a', -n - 1, n + 1), K.opt_int('b', -n - 1, n + 1)
+    i = _Lazy(lambda: K.int('i', -n - 1, n))
+    a, b = _Lazy(lambda: K.opt_int('a', -n - 1, n + 1)), _Lazy(lambda: K.opt_int('b', -n - 1, n + 1))
+    st = _Lazy(lambda: K.choice('step', [-2, -1, 2]))
     pat = K.bits('pat', 2)
     other = K.bits('other', n)
 
@@ -97,24 +114,38 @@ def _ops(K, n):
         return mk(K, bitstring.Bits, other)
     ops = {
         'len': lambda s: len(s), 'bool': lambda s: bool(s), 'eq-twin': lambda s: s == oobj(), 'ne-twin': lambda s: s != oobj(), 'eq-reflected': lambda s: oobj() == s,
-        'bin': lambda s: s.bin, 'tobytes': lambda s: s.tobytes(), 'count1': lambda s: s.count(1), 'count0': lambda s: s.count(0), 'index': lambda s: s[i],
-        'slice': lambda s: raw(s[a:b]), 'reversed': lambda s: raw(s[::-1]), 'iter': lambda s: list(s), 'add': lambda s: raw(s + pobj()), 'radd': lambda s: raw(pobj() + s),
+        'bin': lambda s: s.bin, 'tobytes': lambda s: s.tobytes(), 'count1': lambda s: s.count(1), 'count0': lambda s: s.count(0), 'index': lambda s: s[i()],
+        'slice': lambda s: raw(s[a():b()]), 'stepslice': lambda s: raw(s[a():b():st()]), 'reversed': lambda s: raw(s[::-1]), 'iter': lambda s: list(s), 'add': lambda s: raw(s + pobj()), 'radd': lambda s: raw(pobj() + s),
         'mul': lambda s: raw(s * 2), 'invert': lambda s: raw(~s), 'and': lambda s: raw(s & oobj()), 'or': lambda s: raw(s | oobj()), 'xor': lambda s: raw(s ^ oobj()),
-        'rand': lambda s: raw(oobj() & s), 'lshift': lambda s: raw(s << 1), 'rshift': lambda s: raw(s >> 1), 'find': lambda s: s.find(pobj(), a, b),
+        'rand': lambda s: raw(oobj() & s), 'lshift': lambda s: raw(s << 1), 'rshift': lambda s: raw(s >> 1), 'find': lambda s: s.find(pobj(), a(), b()),
         'rfind': lambda s: s.rfind(pobj()), 'findall': lambda s: list(s.findall(pobj())), 'contains': lambda s: pobj() in s, 'startswith': lambda s: s.startswith(pobj()),
         'endswith': lambda s: s.endswith(pobj()), 'cut': lambda s: [raw(c) for c in s.cut(3)], 'split': lambda s: [raw(c) for c in s.split(pobj())], 'all1': lambda s: s.all(1),
-        'any1': lambda s: s.any(1), 'all0': lambda s: s.all(0), 'any0': lambda s: s.any(0), 'all-pos': lambda s: s.all(1, [i]), 'uint': lambda s: s.uint, 'int': lambda s: s.int,
+        'any1': lambda s: s.any(1), 'all0': lambda s: s.all(0), 'any0': lambda s: s.any(0), 'all-pos': lambda s: s.all(1, [i()]), 'uint': lambda s: s.uint, 'int': lambda s: s.int,
         'unpack': lambda s: s.unpack('bin'), 'copy': lambda s: raw(s.copy()), 'to-BitArray': lambda s: raw(bitstring.BitArray(s)), 'to-Bits': lambda s: raw(bitstring.Bits(s)),
         'tobitarray': lambda s: s.tobitarray().copy(), 'join': lambda s: raw(s.join([pobj(), pobj()])), 'hash': lambda s: (hash(s) if not K.symbolic else s.tobytes()) if type(s).__hash__ is not None else None,
         'str': lambda s: str(s) if not K.symbolic else None, 'bytes-prop': lambda s: s.bytes, 'hex': lambda s: s.hex,
+        'tofile': lambda s: _tofile_bits(K, s), 'bytes()': lambda s: s.__bytes__(), 'repr-class': lambda s: repr(s).split('(')[0] if not K.symbolic else None,
     }
     return ops
 
 
+def _tofile_bits(K, s):
+    import io
+    if K.symbolic:
+        w = F.FakeWriter()
+        s.tofile(w)
+        return w.bits()
+    buf = io.BytesIO()
+    s.tofile(buf)
+    r = O.empty()
+    r.frombytes(buf.getvalue())
+    return r
+
+
 def _lsb0_ops(K, n):
     import bitstring
-    i = K.int('i', -n - 1, n)
-    a, b = K.opt_int('a', -n - 1, n + 1), K.opt_int('b', -n - 1, n + 1)
+    i = _Lazy(lambda: K.int('i', -n - 1, n))
+    a, b = _Lazy(lambda: K.opt_int('a', -n - 1, n + 1)), _Lazy(lambda: K.opt_int('b', -n - 1, n + 1))
 
     def lsb(f):
         def g(s):
@@ -124,7 +155,7 @@ def _lsb0_ops(K, n):
             finally:
                 bitstring.options.lsb0 = False
         return g
-    ops = {'lsb0-index': lsb(lambda s: s[i]), 'lsb0-slice': lsb(lambda s: raw(s[a:b])), 'lsb0-find': lsb(lambda s: s.find('0b1')), 'lsb0-iter': lsb(lambda s: list(s))}
+    ops = {'lsb0-index': lsb(lambda s: s[i()]), 'lsb0-slice': lsb(lambda s: raw(s[a():b()])), 'lsb0-find': lsb(lambda s: s.find('0b1')), 'lsb0-iter': lsb(lambda s: list(s))}
     if LIGHT[0]:
         del ops['lsb0-slice']
     return ops
@@ -227,9 +258,10 @@ def h_route_mut(cname, route, n, opname):
 
 
 PLAIN_GROUPS = {
-    'basic': ['len', 'bool', 'bin', 'tobytes', 'count1', 'count0', 'index', 'iter', 'uint', 'int', 'hex', 'bytes-prop', 'unpack', 'str', 'hash'],
+    'basic': ['len', 'bool', 'bin', 'tobytes', 'tofile', 'bytes()', 'count1', 'count0', 'index', 'iter', 'uint', 'int', 'hex', 'bytes-prop', 'unpack', 'str', 'hash', 'repr-class'],
     'eq': ['eq-twin', 'ne-twin', 'eq-reflected'],
     'slice': ['slice', 'reversed', 'cut', 'split', 'join'],
+    'stepslice': ['stepslice'],
     'arith': ['add', 'radd', 'mul', 'invert', 'lshift', 'rshift', 'copy', 'to-BitArray', 'to-Bits', 'tobitarray'],
     'bitwise': ['and', 'or', 'xor', 'rand'],
     'search': ['find', 'rfind', 'findall', 'contains', 'startswith', 'endswith', 'all1', 'any1', 'all0', 'any0', 'all-pos'],
@@ -245,18 +277,27 @@ def conditions(tier):
     def add(cid, fn, bounds, **params):
         conds.append(Cond(cid, fn, bounds, D, params, timeout=T, setup=F.install_fakes))
 
-    routes_q = ['file-len', 'file-offset-len', 'handle-len', 'bytes-window', 'bitarray-window', 'slice-of-larger']
+    WHOLE = ('file-whole', 'file-exact-len')
+    routes_q = ['file-len', 'file-whole', 'file-exact-len', 'file-offset-len', 'handle-len', 'bytes-window', 'bitarray-window', 'slice-of-larger']
     for c in (['Bits', 'BitArray'] if q else CLS):
         for route in (routes_q if q else ROUTES):
-            for n in ([4] if q else [0, 5, 8, 11]):
-                if route == 'file-whole' and n % 8:
+            for n in (([8] if route in WHOLE else [4]) if q else [0, 5, 8, 11]):
+                if route in WHOLE and (n % 8 or n == 0):
                     continue
                 for g, names in PLAIN_GROUPS.items():
                     if q and g == 'search':
                         names = ['rfind', 'contains', 'endswith', 'all1', 'any0', 'all-pos']
-                    if q and c == 'BitArray' and g in ('slice', 'search') and not route.startswith('file'):
+                    if q and c == 'BitArray' and g in ('slice', 'stepslice', 'search') and not route.startswith('file'):
+                        continue
+                    if q and route in WHOLE and g in ('basic', 'slice'):
+                        for nm in names:
+                            add(f'C08.{g}.{nm}[{c},{route},n={n}]', h_route(c, route, n, 'plain', [nm]), f'all raw contents behind route {route} (logical length {n}) x operation arguments; op: {nm}', route=route, n=n, group=g)
                         continue
                     add(f'C08.{g}[{c},{route},n={n}]', h_route(c, route, n, 'plain', names), f'all raw contents behind route {route} (logical length {n}) x operation arguments; ops: {", ".join(names)}', route=route, n=n, group=g)
+                if q and route in WHOLE:
+                    for nm in ['lsb0-index', 'lsb0-find', 'lsb0-iter']:
+                        add(f'C08.{nm}[{c},{route},n={n}]', h_route(c, route, n, 'lsb0', [nm]), f'route {route}, length {n}; {nm}', route=route, n=n, group='lsb0')
+                    continue
                 add(f'C08.lsb0[{c},{route},n={n}]', h_route(c, route, n, 'lsb0'), f'route {route}, length {n}; lsb0 index/slice/find/iter', route=route, n=n, group='lsb0')
     for c in (['BitArray'] if q else ['BitArray', 'BitStream']):
         for route in (['file-len', 'bytes-window'] if q else ['file-len', 'file-offset-len', 'handle-len', 'bytes-window', 'bitarray-window', 'slice-of-larger']):
